@@ -3,6 +3,7 @@ package main
 import (
 	"net/http"
 	"net/url"
+	"time"
 
 	"github.com/0xReLogic/Helios/internal/config"
 	"github.com/0xReLogic/Helios/internal/loadbalancer"
@@ -44,6 +45,48 @@ func (r *verifConnRecorder) Flush() {
 	r.flushedAt = append(r.flushedAt, len(r.body))
 }
 
+// verifTimeoutHandler is the executor's model of http.TimeoutHandler (the real one runs
+// natively): the inner handler writes into a buffering writer that is neither a Flusher nor
+// a Hijacker and keeps the first status it is given; the buffered response is copied out when
+// the handler returns. No time passes during a request, so the timeout itself never fires.
+type verifTimeoutWriter struct {
+	hdr         http.Header
+	code        int
+	wroteHeader bool
+	buf         []byte
+}
+
+func (t *verifTimeoutWriter) Header() http.Header { return t.hdr }
+func (t *verifTimeoutWriter) WriteHeader(code int) {
+	if t.wroteHeader {
+		return
+	}
+	t.wroteHeader, t.code = true, code
+}
+func (t *verifTimeoutWriter) Write(b []byte) (int, error) {
+	if !t.wroteHeader {
+		t.WriteHeader(http.StatusOK)
+	}
+	t.buf = append(t.buf, b...)
+	return len(b), nil
+}
+
+func verifTimeoutHandler(h http.Handler, dt time.Duration, msg string) http.Handler {
+	return http.HandlerFunc(func(w http.ResponseWriter, r *http.Request) {
+		tw := &verifTimeoutWriter{hdr: http.Header{}}
+		h.ServeHTTP(tw, r)
+		dst := w.Header()
+		for k, vv := range tw.hdr {
+			dst[k] = vv
+		}
+		if !tw.wroteHeader {
+			tw.code = http.StatusOK
+		}
+		w.WriteHeader(tw.code)
+		w.Write(tw.buf)
+	})
+}
+
 var verifLastPanic interface{}
 
 func verifServeStack(h http.Handler, rec *verifConnRecorder, r *http.Request) (aborted, crashed bool) {
@@ -75,8 +118,8 @@ func verifServeStack(h http.Handler, rec *verifConnRecorder, r *http.Request) (a
 func VerifStack(features, k, interim int) {
 	loadbalancer.VerifAllowInterim(interim != 0)
 	defer loadbalancer.VerifAllowInterim(false)
-	lb := loadbalancer.VerifScriptedLB(0, 1, features)
 	c := &config.Config{}
+	c.Server.Port = 8080
 	c.Plugins.Enabled = true
 	c.Plugins.Chain = []config.PluginConfig{
 		{Name: "logging"},
@@ -86,6 +129,11 @@ func VerifStack(features, k, interim int) {
 	}
 	c.Logging.RequestID.Enabled = true
 	c.Logging.Trace.Enabled = true
+	// documented, validated and shipped as 30 in helios.yaml; whatever it is set to, the clauses below hold
+	c.Server.Timeouts.Handler = []int{0, 30}[verifrt.Choice("server.timeouts.handler", 2)]
+	// the balancer is built the way main builds it: NewLoadBalancer from the same configuration
+	lb := loadbalancer.VerifConfiguredLB(c, features)
+	defer lb.Stop()
 	h, err := buildHandler(c, lb)
 	verifrt.Assert(err == nil && h != nil, "the documented handler composition builds")
 	for i := 0; i < k; i++ {
@@ -97,6 +145,12 @@ func VerifStack(features, k, interim int) {
 		tooLarge := verifrt.Bool("declaredBodyTooLarge")
 		if tooLarge {
 			r.ContentLength = 9
+		}
+		upgrade := verifrt.Bool("requestAsksForWebSocketUpgrade")
+		if upgrade {
+			// an Upgrade request is a request like any other for authentication, limits and IDs
+			r.Header.Set("Connection", "Upgrade")
+			r.Header.Set("Upgrade", "websocket")
 		}
 		clientID := ""
 		if verifrt.Bool("clientSendsRequestID") {
@@ -126,6 +180,9 @@ func VerifStack(features, k, interim int) {
 		}
 		verifrt.Assert(rec.wire.Get("X-App") == "Helios", "the headers plugin's response header is on the wire")
 		verifrt.Assert(len(rec.wire["Link"]) == 0, "the final response carries no header that only an interim response carried")
+		if reached && upgrade {
+			verifrt.Assert(!loadbalancer.VerifUpgradeHadDeadline(), "an Upgrade request reaches the reverse proxy without a deadline on its context: a tunnel lives until one side closes it, whatever server.timeouts.handler says")
+		}
 		if reached && !aborted {
 			st := rec.status
 			_, bst := loadbalancer.VerifLastBackend()
@@ -133,7 +190,15 @@ func VerifStack(features, k, interim int) {
 			verifrt.Assert(ok, "a proxied exchange delivers exactly the backend's status (502 when the backend is unreachable)")
 			if kind == 0 {
 				verifrt.Assert(string(rec.body) == "ok", "a proxied exchange delivers exactly the backend's body: nothing dropped, nothing appended")
-				verifrt.Assert(len(rec.flushedAt) > 0 && rec.flushedAt[0] == 1, "bytes a streaming backend has flushed reach the client while the response is still open (through the whole handler stack)")
+				// the backend wrote "o", flushed, wrote "k": some flush must have happened with exactly the
+				// first chunk on the wire (an additional header-only flush before it is harmless)
+				midway := false
+				for _, n := range rec.flushedAt {
+					if n == 1 {
+						midway = true
+					}
+				}
+				verifrt.Assert(midway, "bytes a streaming backend has flushed reach the client while the response is still open (through the whole handler stack)")
 			} else {
 				verifrt.Assert(len(rec.body) == 0, "an unreachable backend is answered with the proxy's bare 502")
 			}
